@@ -126,7 +126,11 @@ def perturb(prog, cut, rng, kind=None):
                 old = col[i]
                 mode = rng.random()
                 if name == "px" or name == "bidoffer":
-                    new = None if (mode < 0.15 and name == "px" and False) else (old if old is None else max(1, int(old) + rng.choice([-5, -2, 3, 7, 11])) if name == "px" else rng.choice([0, 2, 4]))
+                    if name == "px" and (mode < 0.12 or (old is None and mode < 0.5)):
+                        # quote availability changes too: a price goes missing / a missing one appears
+                        new = None if old is not None else rng.choice([10, 20, 30])
+                    else:
+                        new = (old if old is None else max(1, int(old) + rng.choice([-5, -2, 3, 7, 11]))) if name == "px" else rng.choice([0, 2, 4])
                 elif old is None:
                     new = rng.choice([None, 0.25, 1]) if name not in ("coupons", "cost_long", "cost_short", "notional") else None
                 elif isinstance(old, bool):
